@@ -124,3 +124,54 @@ func quickDirectives() DirectiveSpace {
 func midDirectives() DirectiveSpace {
 	return DirectiveSpace{FlagSets: []int{0, 1, 2, 4, 8, 16, 5, 20, 9}, Wids: []int{0, 3}, Precs: []int{0, 3}, Verbs: []rune("vdsxXqtbcoUefgTpwz")}
 }
+
+// indexedFormats: formats of 2 (and 3) directives with explicit argument indexes,
+// widths (literal, star, indexed star), precisions and verbs that leave the fast
+// path - the space in which per-directive parser state (argument number, reordered,
+// goodArgNum, afterIndex) carried from one directive to the next shows.
+func indexedFormats(quick bool) []string {
+	idx := []string{"", "[1]", "[2]", "[3]", "[9]", "[x]"}
+	flags := []string{"", "-"}
+	wid := []string{"", "5", "*", "[2]*"}
+	prec := []string{"", ".2", ".*"}
+	verbs := []string{"d", "s", "v", "X", "T"}
+	if quick {
+		flags = []string{""}
+		prec = []string{"", ".*"}
+		verbs = []string{"d", "s", "X"}
+	}
+	var one []string
+	for _, i := range idx {
+		for _, f := range flags {
+			for _, w := range wid {
+				for _, p := range prec {
+					for _, v := range verbs {
+						one = append(one, "%"+f+i+w+p+v)
+					}
+				}
+			}
+		}
+	}
+	var out []string
+	for _, a := range one {
+		for _, b := range one {
+			out = append(out, a+" "+b)
+		}
+	}
+	var small []string
+	for _, i := range []string{"", "[1]", "[3]", "[9]"} {
+		for _, w := range []string{"", "*"} {
+			for _, v := range []string{"d", "s", "X"} {
+				small = append(small, "%"+i+w+v)
+			}
+		}
+	}
+	for _, a := range small {
+		for _, b := range small {
+			for _, c := range small {
+				out = append(out, a+"|"+b+"|"+c)
+			}
+		}
+	}
+	return out
+}
